@@ -93,12 +93,12 @@ def finish(pid, ctx, progs, extra, info, t0):
         for label, prog in at.items():
             if label.endswith("-test") or label.startswith("itest:"):
                 continue
-            for (b, kind, bb, names, obj) in C.all_mentions(prog, lambda ns: "txtpp::fs::path::abs_path::AbsPath::new" in ns):
+            for (b, kind, bb, names, obj) in C.all_mentions(prog, lambda ns: any(n.endswith("AbsPath::new") for n in ns)):
                 bad.append("%s in %s" % (label, b.name))
         test_users = 0
         for label, prog in at.items():
             if label.endswith("-test") or label.startswith("itest:"):
-                test_users += len(C.all_mentions(prog, lambda ns: "txtpp::fs::path::abs_path::AbsPath::new" in ns))
+                test_users += len(C.all_mentions(prog, lambda ns: any(n.endswith("AbsPath::new") for n in ns)))
         info["abspath_new"] = {"non_test_mentions": bad, "test_mentions": test_users}
         if bad:
             out.append("VIOLATION property=%s replay=%s" % (pid, E.write_report(pid, {
